@@ -70,6 +70,10 @@ structure Reconfigured (s s' : State) (ps : List Pool) : Prop where
   alloc : ∀ j, Tbl.get s'.alloc j = if configured ps j then Tbl.get (listed s) j else none
   coherent : Coherent s'
 
+/-- `ConfigurePool` lists the store itself (the regenerated fact `reloadListsApiserver`): the regular objects and the
+    orphans of earlier failed deletes - not an informer's view of them -/
+theorem listed_eq (s : State) : listed s = s.store ++ s.orphans := rfl
+
 theorem configurePool_fail (s : State) (ps : List Pool) (hf : (configurePool s ps).2 = false) :
     (configurePool s ps).1 = s.api.1 := by
   revert hf
